@@ -26,7 +26,7 @@ pub fn rich_doc_strategy() -> impl Strategy<Value = RichDoc> {
         prop::collection::vec(-50i16..50, 0..3),
         prop::option::weighted(0.7, -40i16..40),
         prop::collection::vec(0u8..6, 0..5),
-        prop_oneof![3 => 0u8..6, 1 => any::<u8>()],
+        prop_oneof![6 => 0u8..6, 2 => any::<u8>(), 1 => Just(7u8)],
         prop_oneof![4 => 0u8..10, 1 => 100u8..=255],
     )
         .prop_map(|(title, tags, nums, f, ft, sort, blob_len)| RichDoc { title, tags, nums, f, ft, sort, blob_len })
@@ -95,7 +95,10 @@ pub fn to_tantivy(uid: u64, d: &RichDoc, f: &RichFields) -> TantivyDocument {
     if !d.ft.is_empty() {
         t.add_text(f.ft, words(&d.ft));
     }
-    t.add_u64(f.sortkey, d.sort as u64);
+    // a sort value of 7 (mod 8) stands for "no value": sorted indexes keep such documents first (asc) / last (desc)
+    if d.sort % 8 != 7 {
+        t.add_u64(f.sortkey, d.sort as u64);
+    }
     if d.blob_len > 0 {
         let bytes: Vec<u8> = (0..d.blob_len as usize).map(|i| (i as u8).wrapping_mul(31).wrapping_add(uid as u8)).collect();
         t.add_bytes(f.blob, &bytes);
